@@ -47,6 +47,7 @@ func main() {
 	maxConc := flag.Int("maxconc", 40, "max concretisation values per site per path")
 	trace := flag.Bool("trace", false, "trace instructions")
 	extra := flag.String("extra", "", "comma separated extra overlay mappings virtual=real")
+	modelFile := flag.String("model", "", "concrete replay: JSON file with {harness, model}; runs that harness once under the assignment")
 	flag.Parse()
 
 	os.Setenv("PATH", "/opt/veriftools/go1.26.8/bin:"+os.Getenv("PATH"))
@@ -164,6 +165,36 @@ func main() {
 	}
 	defer s.Close()
 	m.S = s
+	if *modelFile != "" {
+		b, err := os.ReadFile(*modelFile)
+		if err != nil {
+			fatal(err)
+		}
+		var doc struct {
+			Harness string            `json:"harness"`
+			Class   string            `json:"class"`
+			Model   map[string]string `json:"model"`
+		}
+		if err := json.Unmarshal(b, &doc); err != nil {
+			fatal(err)
+		}
+		for _, h := range harnesses {
+			if h.Name() != doc.Harness {
+				continue
+			}
+			got := m.NewExplorer(h).RunConcrete(doc.Model)
+			fmt.Printf("CONCRETE-REPLAY harness=%s classes=%q\n", h.Name(), got)
+			for _, c := range got {
+				if c == doc.Class {
+					fmt.Println("REPRODUCED")
+					os.Exit(1)
+				}
+			}
+			fmt.Println("NOT-REPRODUCED")
+			os.Exit(0)
+		}
+		fatal(fmt.Errorf("harness %s not found", doc.Harness))
+	}
 	o := &Output{Package: target.Pkg.Path(), Tier: *tier, LoadS: loadS, Skipped: skipped, Solver: *solver}
 	for _, h := range harnesses {
 		x := m.NewExplorer(h)
